@@ -21,3 +21,81 @@ pub(crate) fn point(name: &'static str) {
         hook(name);
     }
 }
+
+/// Pass-through wrapper around `std::sync::RwLock` that reports to the point hook before every
+/// acquisition (`"sync/read"`, `"sync/write"`) and after every release (`"sync/unlock"`), so that a
+/// harness can park a thread between any two locked steps - including in windows that only exist
+/// after a change to the code.
+pub(crate) mod sync {
+    use std::ops::{Deref, DerefMut};
+    use std::sync::{LockResult, PoisonError};
+
+    use super::point;
+
+    #[derive(Debug, Default)]
+    pub(crate) struct RwLock<T>(std::sync::RwLock<T>);
+
+    #[derive(Debug)]
+    pub(crate) struct ReadGuard<'a, T>(Option<std::sync::RwLockReadGuard<'a, T>>);
+
+    #[derive(Debug)]
+    pub(crate) struct WriteGuard<'a, T>(Option<std::sync::RwLockWriteGuard<'a, T>>);
+
+    impl<T> RwLock<T> {
+        pub(crate) fn new(value: T) -> Self {
+            Self(std::sync::RwLock::new(value))
+        }
+
+        pub(crate) fn read(&self) -> LockResult<ReadGuard<'_, T>> {
+            point("sync/read");
+            match self.0.read() {
+                Ok(guard) => Ok(ReadGuard(Some(guard))),
+                Err(poisoned) => Err(PoisonError::new(ReadGuard(Some(poisoned.into_inner())))),
+            }
+        }
+
+        pub(crate) fn write(&self) -> LockResult<WriteGuard<'_, T>> {
+            point("sync/write");
+            match self.0.write() {
+                Ok(guard) => Ok(WriteGuard(Some(guard))),
+                Err(poisoned) => Err(PoisonError::new(WriteGuard(Some(poisoned.into_inner())))),
+            }
+        }
+    }
+
+    impl<T> Deref for ReadGuard<'_, T> {
+        type Target = T;
+
+        fn deref(&self) -> &T {
+            self.0.as_ref().expect("only taken in drop")
+        }
+    }
+
+    impl<T> Drop for ReadGuard<'_, T> {
+        fn drop(&mut self) {
+            drop(self.0.take());
+            point("sync/unlock");
+        }
+    }
+
+    impl<T> Deref for WriteGuard<'_, T> {
+        type Target = T;
+
+        fn deref(&self) -> &T {
+            self.0.as_ref().expect("only taken in drop")
+        }
+    }
+
+    impl<T> DerefMut for WriteGuard<'_, T> {
+        fn deref_mut(&mut self) -> &mut T {
+            self.0.as_mut().expect("only taken in drop")
+        }
+    }
+
+    impl<T> Drop for WriteGuard<'_, T> {
+        fn drop(&mut self) {
+            drop(self.0.take());
+            point("sync/unlock");
+        }
+    }
+}
